@@ -188,11 +188,15 @@ def eval_case(case):
     got = {}
     for name, exp in (('inc', exp_inc), ('exc', exp_exc)):
         a, kw = call_args(cond)
+        before = [list(x.items()) if type(x) is dict else None for x in a]      # condition objects the caller hands in are operands too
         try:
             r = getattr(d, name)(*a, **kw)
         except Exception as e:      # noqa
             fail('C06:%s:raises%s' % (name, kind), '%s raised %s: %s' % (name, type(e).__name__, e))
             continue
+        for x, b in zip(a, before):
+            if b is not None and not (len(x) == len(b) and all(k1 == k0 and v1 is v0 for (k1, v1), (k0, v0) in zip(x.items(), b))):
+                fail('C06:%s:condition-unchanged%s' % (name, kind), '%s altered the condition dict handed in: %r became %r' % (name, dict(b), x))
         rc, rr, rect = table_rows(r)
         got[name] = r
         if not isinstance(r, dictable) or not rect:
